@@ -169,6 +169,19 @@ def outs (s : World) : List Op → List Out
 
 /-! ## `Sleep` (future.rs): `Sleep(Option<TimerFuture>)` -/
 
+/-- Largest representable `Instant` in nanoseconds. On Linux an `Instant` is a
+`Timespec { tv_sec: i64, tv_nsec < 10^9 }`; instants before the clock's origin (negative `tv_sec`)
+are constructible with `Instant - Duration`. To keep instants natural numbers the model counts
+nanoseconds from the *smallest representable* instant (`tv_sec = i64::MIN`), so the range is
+`0 ..= 2^64 * 10^9 - 1` (and "now" is about `2^63 * 10^9` plus the uptime). -/
+def instMax : Nat := 2 ^ 64 * 1000000000 - 1
+
+/-- `sleep(duration)` / `timeout(duration, ..)` / `interval(period)` (mod.rs) compute their deadline
+as `Instant::now() + duration`, which panics ("overflow when adding duration to instant") when the
+sum is not a representable `Instant`; `none` = that panic. -/
+def deadlineAfter (now dur : Nat) : Option Nat :=
+  if now + dur > instMax then none else some (now + dur)
+
 /-- `key = none`: the deadline had passed at creation, the future is ready at once -/
 structure Sleep where
   key : Option Key
@@ -222,13 +235,6 @@ def Timeout.drive (s : World) (slp : Sleep) (wk : Nat) : List (List Op × Bool) 
     | (w, r) => (⟨s1.now, w⟩, r)
 
 /-! ## `Interval` -/
-
-/-- Largest representable `Instant` in nanoseconds. On Linux an `Instant` is a
-`Timespec { tv_sec: i64, tv_nsec < 10^9 }`; instants before the clock's origin (negative `tv_sec`)
-are constructible with `Instant - Duration`. To keep instants natural numbers the model counts
-nanoseconds from the *smallest representable* instant (`tv_sec = i64::MIN`), so the range is
-`0 ..= 2^64 * 10^9 - 1` (and "now" is about `2^63 * 10^9` plus the uptime). -/
-def instMax : Nat := 2 ^ 64 * 1000000000 - 1
 
 structure Interval where
   firstTicked : Bool
